@@ -13,6 +13,15 @@ Fixpoint fnames_ok (l : list fchild) (seen : list N) : bool :=
   end.
 Definition schema_ok (S : schema) : bool := forallb (fun ct => fnames_ok (flat_elems S ct) []) S.
 
+(* the outputs of a wrapped operation (returned_types: members AND attributes of
+   the wrapper's type) have distinct names, no wildcard *)
+Fixpoint rnames_ok (l : list rentry) (seen : list N) : bool :=
+  match l with
+  | [] => true
+  | RAny :: _ => false
+  | r :: l' => negb (existsb (N.eqb (re_name r)) seen) && rnames_ok l' (re_name r :: seen)
+  end.
+
 (* no name of the interface is one the unmarshaller renames (class, def) *)
 Definition names_ok (names : list (str * N)) : bool :=
   forallb (fun p => match sfind (fst p) reserved_words with None => true | Some _ => false end) names.
@@ -87,3 +96,49 @@ Definition functional_b (l : list (str * str)) : bool :=
   forallb (fun a => forallb (fun b => negb (str_eqb (fst a) (fst b)) || str_eqb (snd a) (snd b)) l) l.
 
 Definition consistent (e : elem) : bool := functional_b (all_decls e).
+
+(* the reserved prefix xml is not re-declared *)
+Definition no_xml_decl (e : elem) : bool :=
+  forallb (fun d => negb (str_eqb (fst d) s_xml)) (all_decls e).
+
+(* children of the Envelope that are called Body are in the Envelope's namespace *)
+Definition bodies_ok (x : inode) : bool :=
+  forallb (fun k => negb (str_eqb (i_nm k) s_Body) || ostr_eqb (i_u k) (i_u x)) (i_kids x).
+
+(* ---- all the guards of the whole-reply theorem, on one harness case ---- *)
+Definition case_guard (c : case) : bool :=
+  match case_wt c, build (c_raw c) with
+  | Some wt, [root] =>
+      schema_ok (c_schema c) && names_ok (c_names c) && kinds_ok (c_kinds c) &&
+      globals_ok (c_schema c) (c_globals c) &&
+      fnames_ok (flat_elems (c_schema c) wt) [] &&
+      rnames_ok (returned_types (c_schema c) wt) [] &&
+      match erase [] root with
+      | Some x =>
+          consistent root && no_xml_decl root && doc_ok [] (promote_node root) && bodies_ok x &&
+          match flags_reply (c_schema c) (c_names c) (c_uris c) (c_kinds c) wt x with [] => true | _ => false end &&
+          match ref_reply (c_schema c) (c_names c) (c_uris c) (c_kinds c) (c_wq c) wt x with
+          | Some _ => true
+          | None => false
+          end
+      | None => false
+      end
+  | _, _ => false
+  end.
+
+(* the instance of the theorem on one case: inside the guard, the model returns
+   exactly the reference value of the document's (Coq-computed) infoset *)
+Definition theorem_instance (c : case) : bool :=
+  negb (case_guard c) ||
+  match case_wt c, build (c_raw c) with
+  | Some wt, [root] =>
+      match erase [] root with
+      | Some x =>
+          match ref_reply (c_schema c) (c_names c) (c_uris c) (c_kinds c) (c_wq c) wt x, model_reply c with
+          | Some v, DOk v' => pyval_eqb v v' && pyval_eqb v' v
+          | _, _ => false
+          end
+      | None => false
+      end
+  | _, _ => false
+  end.
